@@ -56,6 +56,11 @@ chk('C09', 'TLA+ definition of the SMF meta event layouts and VLQ (MetaWire, Vlq
     'Text is modelled as its encoded bytes and instantiated with latin1; known finding D6 (smpte hours 32..255) is listed in known_findings.json.',
     'DESIGN.md 5/C09')
 
+chk('C12', 'TLA+ declarative Merge vs. implementation pipeline (TrackOps) checked by TLC over all small track lists; every (input, expected) row replayed on merge_tracks; random large inputs validated by TLC (MergeTrace)',
+    'TLC enumerates every list of <= 2 tracks x <= 3 events (thorough also 3 x 2 and a fourth delta) with deltas {0,1,2} and end_of_track absent / repeated / mid-track, checks that the abs-time / stable-sort / rel-time / end_of_track-folding pipeline equals the declarative merge (order by absolute tick, track, position; one trailing end_of_track; duration of the longest track) and emits every (tracks, expected) pair; each is merged by the real merge_tracks with and without skip_checks, on MidiTrack and plain lists, and through MidiFile.merged_track, and the inputs are compared with snapshots. 120 (thorough 400) random inputs of up to 6 tracks x 40 events with deltas up to 10^6 are merged by the real code and validated by TLC.',
+    'Message content is represented by distinct note_on messages.',
+    'DESIGN.md 5/C12')
+
 
 def build(not_applicable):
     checks = []
